@@ -166,7 +166,11 @@ func VerifC12Restorer() {
 			symx.Assert(errors.Is(err, ErrChunkAlreadyRestored) && !done, "duplicate delivery of a restored chunk not refused")
 			symx.Assert(len(d2.nodes) == before, "a duplicate delivery imported nodes")
 			symx.Cover("duplicate")
-		case fault == 3 || fault == 4:
+		case fault == 4:
+			symx.Assert(errors.Is(err, ErrChunkCorrupted) && !done, "another chunk's bytes delivered under this index were not rejected as corrupted")
+			symx.Assert(len(d2.nodes) == before, "a chunk delivered under the wrong index made nodes visible")
+			symx.Cover("wrong-chunk")
+		case fault == 3:
 			symx.Assert(errors.Is(err, ErrChunkCorrupted) && !done, "chunk with bytes not matching its digest was not rejected as corrupted")
 			symx.Assert(len(d2.nodes) == before, "a corrupted chunk made nodes visible")
 			symx.Cover("corrupted")
